@@ -1,99 +1,136 @@
 (* C03 proofs, part 1: iteration.  Unfolding equations of [iterate]; flat iteration is the recursive expansion of
-   one-layer iteration; flat pieces are strings and names only; [render] distributes over the pieces. *)
+   one-layer iteration; flat pieces are strings and names only; [render] distributes over the pieces.
+   Everything is stated for every combination [fx] of the rendering repairs. *)
 From Coq Require Import List ZArith String Ascii Bool Arith Lia.
 From Verif Require Import Lib.Sexp Model.C03_ops Gen.C03_tables Model.C03_expr Model.C03_spec Proofs.C03_ind.
 Import ListNotations.
 Open Scope string_scope. Open Scope list_scope. Open Scope nat_scope.
 
-(* _yield(element, flat=b) *)
-Definition yb (b : bool) (c : gexpr) : list item :=
-  match c with GStr s => [IStr s] | _ => if b then iterate true c else [IExpr c] end.
-Definition yob (b : bool) (o : option gexpr) : list item := match o with Some c => yb b c | None => [] end.
-Definition conv_param (b : bool) (p : string * pkind * option gexpr) : string * pkind * option (list item) :=
-  (fst (fst p), snd (fst p), match snd p with Some d => Some (yb b d) | None => None end).
-Definition dict_item (b : bool) (kv : option gexpr * gexpr) : list item :=
-  (match fst kv with None => [IStr "**"] | Some k => yb b k ++ [IStr ": "] end) ++ yb b (snd kv).
+Section Iter.
+Variable fx : fixes.
 
-Lemma it_Str b s : iterate b (GStr s) = [IStr s]. Proof. reflexivity. Qed.
-Lemma it_Name b n p : iterate b (GName n p) = [IExpr (GName n p)]. Proof. reflexivity. Qed.
-Lemma it_Attribute b vs : iterate b (GAttribute vs) = ijoin [IStr "."] (map (yb b) vs). Proof. reflexivity. Qed.
-Lemma it_BinOp b l op r : iterate b (GBinOp l op r) = yb b l ++ [IStr (" " ++ op ++ " ")] ++ yb b r. Proof. reflexivity. Qed.
-Lemma it_BoolOp b op vs : iterate b (GBoolOp op vs) = ijoin [IStr (" " ++ op ++ " ")] (map (yb b) vs). Proof. reflexivity. Qed.
-Lemma it_Call b f args : iterate b (GCall f args) = yb b f ++ [IStr "("] ++ ijoin [IStr ", "] (map (yb b) args) ++ [IStr ")"].
+(* is the element written between parentheses by _yield(element, precedence=req) *)
+Definition ypar (req : nat) (c : gexpr) : bool :=
+  match c with GStr _ => false | _ => fx_prec fx && (gprec c <? req) end.
+
+(* _yield(element, flat=b, precedence=req) *)
+Definition yb (b : bool) (req : nat) (c : gexpr) : list item :=
+  match c with
+  | GStr s => [IStr s]
+  | _ => wrap (fx_prec fx && (gprec c <? req)) (if b then iterate fx true c else [IExpr c])
+  end.
+Definition yob (b : bool) (req : nat) (o : option gexpr) : list item := match o with Some c => yb b req c | None => [] end.
+Definition conv_param (b : bool) (p : string * pkind * option gexpr) : string * pkind * option (list item) :=
+  (fst (fst p), snd (fst p), match snd p with Some d => Some (yb b P_TEST d) | None => None end).
+Definition dict_item (b : bool) (kv : option gexpr * gexpr) : list item :=
+  match fst kv with
+  | None => [IStr "**"] ++ yb b P_BOR (snd kv)
+  | Some k => yb b P_TEST k ++ [IStr ": "] ++ yb b P_TEST (snd kv)
+  end.
+Definition attr_parts (b : bool) (vs : list gexpr) : list (list item) := attr_parts_gen (fx_intattr fx) (yb b) vs.
+Definition call_args (b : bool) (args : list gexpr) : list item := call_args_gen (fx_genexp fx) (yb b) args.
+Definition glue (v : gexpr) : list item :=
+  if fx_fglue fx && (P_OR <=? gprec v) && starts_brace (render_items (match v with GStr s => [IStr s] | _ => iterate fx true v end))
+  then [IStr " "] else [].
+Definition spec_items (b : bool) (spec : option gexpr) : list item := spec_items_gen (yb b) spec.
+Definition lam_items (ps : list (string * pkind * option (list item))) : list item :=
+  if fx_lambda fx then lam_params2 ps false false else lam_params ps false false false.
+Definition tuple_par (es : list gexpr) (implicit : bool) : bool :=
+  if fx_tuple0 fx then negb implicit || is_nil es else negb implicit.
+
+Lemma it_Str b s : iterate fx b (GStr s) = [IStr s]. Proof. reflexivity. Qed.
+Lemma it_Name b n p : iterate fx b (GName n p) = [IExpr (GName n p)]. Proof. reflexivity. Qed.
+Lemma it_Attribute b vs : iterate fx b (GAttribute vs) = ijoin [IStr "."] (attr_parts b vs).
+Proof. reflexivity. Qed.
+Lemma it_BinOp b l op r :
+  iterate fx b (GBinOp l op r) = yb b (gbin_lreq op) l ++ [IStr (" " ++ op ++ " ")] ++ yb b (gbin_rreq op) r.
+Proof. reflexivity. Qed.
+Lemma it_BoolOp b op vs :
+  iterate fx b (GBoolOp op vs) = ijoin [IStr (" " ++ op ++ " ")] (map (yb b (S (gprec (GBoolOp op vs)))) vs).
+Proof. reflexivity. Qed.
+Lemma it_Call b f args : iterate fx b (GCall f args) = yb b P_ATOM f ++ call_args b args.
 Proof. reflexivity. Qed.
 Lemma it_Compare b l ops cs :
-  iterate b (GCompare l ops cs) = yb b l ++ [IStr " "] ++ ijoin [IStr " "] (cmp_zip ops (map (yb b) cs)).
+  iterate fx b (GCompare l ops cs) = yb b P_BOR l ++ [IStr " "] ++ ijoin [IStr " "] (cmp_zip ops (map (yb b P_BOR) cs)).
 Proof. reflexivity. Qed.
 Lemma it_Comprehension b t it conds a :
-  iterate b (GComprehension t it conds a) =
-  (if a then [IStr "async "] else []) ++ [IStr "for "] ++ yb b t ++ [IStr " in "] ++ yb b it
-  ++ (if is_nil conds then [] else IStr " if " :: ijoin [IStr " if "] (map (yb b) conds)).
+  iterate fx b (GComprehension t it conds a) =
+  (if a then [IStr "async "] else []) ++ [IStr "for "] ++ yb b P_BOR t ++ [IStr " in "] ++ yb b P_OR it
+  ++ (if is_nil conds then [] else IStr " if " :: ijoin [IStr " if "] (map (yb b P_OR) conds)).
 Proof. reflexivity. Qed.
 Lemma it_Dict b items :
-  iterate b (GDict items) = [IStr "{"] ++ ijoin [IStr ", "] (map (dict_item b) items) ++ [IStr "}"].
+  iterate fx b (GDict items) = [IStr "{"] ++ ijoin [IStr ", "] (map (dict_item b) items) ++ [IStr "}"].
 Proof. reflexivity. Qed.
 Lemma it_DictComp b k v gens :
-  iterate b (GDictComp k v gens) = [IStr "{"] ++ yb b k ++ [IStr ": "] ++ yb b v ++ [IStr " "] ++ ijoin [IStr " "] (map (yb b) gens) ++ [IStr "}"].
+  iterate fx b (GDictComp k v gens) =
+  [IStr "{"] ++ yb b P_TEST k ++ [IStr ": "] ++ yb b P_TEST v ++ [IStr " "] ++ ijoin [IStr " "] (map (yb b P_NONE) gens) ++ [IStr "}"].
 Proof. reflexivity. Qed.
-Lemma it_Formatted b v : iterate b (GFormatted v) = [IStr "{"] ++ yb b v ++ [IStr "}"]. Proof. reflexivity. Qed.
+Lemma it_Formatted b v conv spec :
+  iterate fx b (GFormatted v conv spec) =
+  [IStr "{"] ++ glue v ++ yb b P_OR v ++ (if (conv =? -1)%Z then [] else [IStr (conv_text conv)]) ++ spec_items b spec ++ [IStr "}"].
+Proof. reflexivity. Qed.
 Lemma it_GeneratorExp b e gens :
-  iterate b (GGeneratorExp e gens) = yb b e ++ [IStr " "] ++ ijoin [IStr " "] (map (yb b) gens).
+  iterate fx b (GGeneratorExp e gens) =
+  wrap (fx_genexp fx) (yb b P_TEST e ++ [IStr " "] ++ ijoin [IStr " "] (map (yb b P_NONE) gens)).
 Proof. reflexivity. Qed.
-Lemma it_IfExp b x t o : iterate b (GIfExp x t o) = yb b x ++ [IStr " if "] ++ yb b t ++ [IStr " else "] ++ yb b o.
+Lemma it_IfExp b x t o :
+  iterate fx b (GIfExp x t o) = yb b P_OR x ++ [IStr " if "] ++ yb b P_OR t ++ [IStr " else "] ++ yb b P_TEST o.
 Proof. reflexivity. Qed.
-Lemma it_JoinedStr b vs : iterate b (GJoinedStr vs) = [IStr "f'"] ++ ijoin [IStr ""] (map (yb b) vs) ++ [IStr "'"].
+Lemma it_JoinedStr b vs : iterate fx b (GJoinedStr vs) = [IStr "f'"] ++ ijoin [IStr ""] (map (yb b P_NONE) vs) ++ [IStr "'"].
 Proof. reflexivity. Qed.
-Lemma it_Keyword b n v : iterate b (GKeyword n v) = [IStr n; IStr "="] ++ yb b v. Proof. reflexivity. Qed.
-Lemma it_VarPositional b v : iterate b (GVarPositional v) = IStr "*" :: yb b v. Proof. reflexivity. Qed.
-Lemma it_VarKeyword b v : iterate b (GVarKeyword v) = IStr "**" :: yb b v. Proof. reflexivity. Qed.
+Lemma it_Keyword b n v : iterate fx b (GKeyword n v) = [IStr n; IStr "="] ++ yb b P_TEST v. Proof. reflexivity. Qed.
+Lemma it_VarPositional b v : iterate fx b (GVarPositional v) = IStr "*" :: yb b P_BOR v. Proof. reflexivity. Qed.
+Lemma it_VarKeyword b v : iterate fx b (GVarKeyword v) = IStr "**" :: yb b P_TEST v. Proof. reflexivity. Qed.
 Lemma it_Lambda b params body :
-  iterate b (GLambda params body) =
+  iterate fx b (GLambda params body) =
   [IStr "lambda"] ++ (if is_nil params then [] else [IStr " "])
-  ++ lam_params (map (conv_param b) params) false false false ++ [IStr ": "] ++ yb b body.
+  ++ lam_items (map (conv_param b) params) ++ [IStr ": "] ++ yb b P_TEST body.
 Proof. reflexivity. Qed.
-Lemma it_List b es : iterate b (GList es) = [IStr "["] ++ ijoin [IStr ", "] (map (yb b) es) ++ [IStr "]"]. Proof. reflexivity. Qed.
+Lemma it_List b es : iterate fx b (GList es) = [IStr "["] ++ ijoin [IStr ", "] (map (yb b P_TEST) es) ++ [IStr "]"].
+Proof. reflexivity. Qed.
 Lemma it_ListComp b e gens :
-  iterate b (GListComp e gens) = [IStr "["] ++ yb b e ++ [IStr " "] ++ ijoin [IStr " "] (map (yb b) gens) ++ [IStr "]"].
+  iterate fx b (GListComp e gens) = [IStr "["] ++ yb b P_TEST e ++ [IStr " "] ++ ijoin [IStr " "] (map (yb b P_NONE) gens) ++ [IStr "]"].
 Proof. reflexivity. Qed.
-Lemma it_NamedExpr b t v : iterate b (GNamedExpr t v) = [IStr "("] ++ yb b t ++ [IStr " := "] ++ yb b v ++ [IStr ")"].
+Lemma it_NamedExpr b t v : iterate fx b (GNamedExpr t v) = [IStr "("] ++ yb b P_ATOM t ++ [IStr " := "] ++ yb b P_TEST v ++ [IStr ")"].
 Proof. reflexivity. Qed.
-Lemma it_Set b es : iterate b (GSet es) = [IStr "{"] ++ ijoin [IStr ", "] (map (yb b) es) ++ [IStr "}"]. Proof. reflexivity. Qed.
+Lemma it_Set b es : iterate fx b (GSet es) = [IStr "{"] ++ ijoin [IStr ", "] (map (yb b P_TEST) es) ++ [IStr "}"].
+Proof. reflexivity. Qed.
 Lemma it_SetComp b e gens :
-  iterate b (GSetComp e gens) = [IStr "{"] ++ yb b e ++ [IStr " "] ++ ijoin [IStr " "] (map (yb b) gens) ++ [IStr "}"].
+  iterate fx b (GSetComp e gens) = [IStr "{"] ++ yb b P_TEST e ++ [IStr " "] ++ ijoin [IStr " "] (map (yb b P_NONE) gens) ++ [IStr "}"].
 Proof. reflexivity. Qed.
 Lemma it_Slice b lo up st :
-  iterate b (GSlice lo up st) = yob b lo ++ [IStr ":"] ++ yob b up ++ (match st with Some s => IStr ":" :: yb b s | None => [] end).
+  iterate fx b (GSlice lo up st) =
+  yob b P_TEST lo ++ [IStr ":"] ++ yob b P_TEST up ++ (match st with Some s => IStr ":" :: yb b P_TEST s | None => [] end).
 Proof. reflexivity. Qed.
-Lemma it_Subscript b l s : iterate b (GSubscript l s) = yb b l ++ [IStr "["] ++ yb b s ++ [IStr "]"]. Proof. reflexivity. Qed.
+Lemma it_Subscript b l s : iterate fx b (GSubscript l s) = yb b P_ATOM l ++ [IStr "["] ++ yb b P_TEST s ++ [IStr "]"].
+Proof. reflexivity. Qed.
 Lemma it_Tuple b es implicit :
-  iterate b (GTuple es implicit) =
-  (if implicit then [] else [IStr "("]) ++ ijoin [IStr ", "] (map (yb b) es)
-  ++ (match es with [_] => [IStr ","] | _ => [] end) ++ (if implicit then [] else [IStr ")"]).
+  iterate fx b (GTuple es implicit) =
+  (if tuple_par es implicit then [IStr "("] else []) ++ ijoin [IStr ", "] (map (yb b P_TEST) es)
+  ++ (match es with [_] => [IStr ","] | _ => [] end) ++ (if tuple_par es implicit then [IStr ")"] else []).
 Proof. reflexivity. Qed.
-Lemma it_UnaryOp b op v : iterate b (GUnaryOp op v) = IStr op :: yb b v. Proof. reflexivity. Qed.
-Lemma it_Yield b v : iterate b (GYield v) = IStr "yield" :: (match v with Some c => IStr " " :: yb b c | None => [] end).
+Lemma it_UnaryOp b op v : iterate fx b (GUnaryOp op v) = IStr op :: yb b (gprec (GUnaryOp op v)) v. Proof. reflexivity. Qed.
+Lemma it_Yield b v : iterate fx b (GYield v) = IStr "yield" :: (match v with Some c => IStr " " :: yb b P_TEST c | None => [] end).
 Proof. reflexivity. Qed.
-Lemma it_YieldFrom b v : iterate b (GYieldFrom v) = IStr "yield from " :: yb b v. Proof. reflexivity. Qed.
+Lemma it_YieldFrom b v : iterate fx b (GYieldFrom v) = IStr "yield from " :: yb b P_TEST v. Proof. reflexivity. Qed.
 
-Create HintDb iter_eq.
-#[export] Hint Rewrite it_Str it_Name it_Attribute it_BinOp it_BoolOp it_Call it_Compare it_Comprehension it_Dict it_DictComp
-  it_Formatted it_GeneratorExp it_IfExp it_JoinedStr it_Keyword it_VarPositional it_VarKeyword it_Lambda it_List it_ListComp
-  it_NamedExpr it_Set it_SetComp it_Slice it_Subscript it_Tuple it_UnaryOp it_Yield it_YieldFrom : iter_eq.
-
-Lemma yb_true c : yb true c = iterate true c.
+Lemma yb_true req c : yb true req c = wrap (ypar req c) (iterate fx true c).
 Proof. destruct c; reflexivity. Qed.
 
 (* ---------- flat = recursive expansion of one layer ---------- *)
-Definition expand (i : item) : list item := match i with IStr s => [IStr s] | IExpr g => iterate true g end.
+Definition expand (i : item) : list item := match i with IStr s => [IStr s] | IExpr g => iterate fx true g end.
 Definition flatten (l : list item) : list item := flat_map expand l.
 
 Lemma flatten_app a b : flatten (a ++ b) = flatten a ++ flatten b.
 Proof. apply flat_map_app. Qed.
 
-Lemma flatten_yb c : flatten (yb false c) = yb true c.
-Proof. destruct c; simpl; rewrite ?app_nil_r; reflexivity. Qed.
+Lemma flatten_wrap p l : flatten (wrap p l) = wrap p (flatten l).
+Proof. destruct p; [|reflexivity]. unfold wrap. cbn [flatten flat_map expand app]. f_equal. apply flatten_app. Qed.
 
-Lemma flatten_yob o : flatten (yob false o) = yob true o.
+Lemma flatten_yb req c : flatten (yb false req c) = yb true req c.
+Proof. destruct c; try reflexivity; unfold yb; rewrite flatten_wrap; cbn [flatten flat_map expand]; rewrite app_nil_r; reflexivity. Qed.
+
+Lemma flatten_yob req o : flatten (yob false req o) = yob true req o.
 Proof. destruct o; [apply flatten_yb|reflexivity]. Qed.
 
 Lemma flatten_ijoin sep l : flatten (ijoin sep l) = ijoin (flatten sep) (map flatten l).
@@ -103,7 +140,7 @@ Proof.
   rewrite !flatten_app, IH. reflexivity.
 Qed.
 
-Lemma map_flatten_yb vs : map flatten (map (yb false) vs) = map (yb true) vs.
+Lemma map_flatten_yb req vs : map flatten (map (yb false req) vs) = map (yb true req) vs.
 Proof. rewrite map_map. apply map_ext. intros; apply flatten_yb. Qed.
 
 Lemma flatten_cmp_zip ops ls : map flatten (cmp_zip ops ls) = cmp_zip ops (map flatten ls).
@@ -118,6 +155,9 @@ Qed.
 Definition flat_param (p : string * pkind * option (list item)) : string * pkind * option (list item) :=
   (fst (fst p), snd (fst p), match snd p with Some d => Some (flatten d) | None => None end).
 
+Lemma is_nil_map {A B} (f : A -> B) l : is_nil (map f l) = is_nil l.
+Proof. destruct l; reflexivity. Qed.
+
 Lemma flatten_lam_params ps a b c : flatten (lam_params ps a b c) = lam_params (map flat_param ps) a b c.
 Proof.
   revert a b c. induction ps as [|[[n k] d] ps IH]; intros a b c; [reflexivity|].
@@ -127,6 +167,18 @@ Proof.
     rewrite ?flatten_app; destruct (is_nil ps); cbn [flatten flat_map expand app]; rewrite ?IH; reflexivity.
 Qed.
 
+Lemma flatten_lam_params2 ps a c : flatten (lam_params2 ps a c) = lam_params2 (map flat_param ps) a c.
+Proof.
+  revert a c. induction ps as [|[[n k] d] ps IH]; intros a c; [destruct a; reflexivity|].
+  cbn [lam_params2 map flat_param fst snd].
+  assert (Hn : is_nil (map flat_param ps) = is_nil ps) by (destruct ps; reflexivity). rewrite Hn.
+  destruct k, a, c, d as [dd|]; cbn [is_po is_variadic negb andb]; rewrite ?flatten_app; cbn [flatten flat_map expand app];
+    rewrite ?flatten_app; destruct (is_nil ps); cbn [flatten flat_map expand app]; rewrite ?IH; reflexivity.
+Qed.
+
+Lemma flatten_lam_items ps : flatten (lam_items ps) = lam_items (map flat_param ps).
+Proof. unfold lam_items. destruct (fx_lambda fx); [apply flatten_lam_params2|apply flatten_lam_params]. Qed.
+
 Lemma conv_param_flat params : map flat_param (map (conv_param false) params) = map (conv_param true) params.
 Proof.
   rewrite map_map. apply map_ext. intros [[n k] [d|]]; unfold flat_param, conv_param; simpl; [rewrite flatten_yb|]; reflexivity.
@@ -134,25 +186,58 @@ Qed.
 
 Lemma dict_item_flat items : map flatten (map (dict_item false) items) = map (dict_item true) items.
 Proof.
-  rewrite map_map. apply map_ext. intros [[k|] v]; unfold dict_item; simpl fst; simpl snd;
-    rewrite !flatten_app, ?flatten_yb; reflexivity.
+  rewrite map_map. apply map_ext. intros [[k|] v]; unfold dict_item; cbn [fst snd].
+  - rewrite !flatten_app, !flatten_yb. reflexivity.
+  - change (flatten ([IStr "**"] ++ yb false P_BOR v)) with (IStr "**" :: flatten (yb false P_BOR v)).
+    rewrite flatten_yb. reflexivity.
+Qed.
+
+Lemma attr_parts_flat vs : map flatten (attr_parts false vs) = attr_parts true vs.
+Proof.
+  unfold attr_parts, attr_parts_gen. destruct vs as [|v rest]; [reflexivity|].
+  destruct v; try apply map_flatten_yb.
+  cbn [map]. rewrite map_flatten_yb. f_equal. destruct (fx_intattr fx && is_decimal s); reflexivity.
+Qed.
+
+Lemma call_args_flat args : flatten (call_args false args) = call_args true args.
+Proof.
+  unfold call_args, call_args_gen.
+  assert (Hgen : flatten ([IStr "("] ++ ijoin [IStr ", "] (map (yb false P_TEST) args) ++ [IStr ")"])
+                 = [IStr "("] ++ ijoin [IStr ", "] (map (yb true P_TEST) args) ++ [IStr ")"]).
+  { rewrite !flatten_app, flatten_ijoin, map_flatten_yb. reflexivity. }
+  destruct args as [|a r]; [exact Hgen|]. destruct a; try exact Hgen. destruct r; [|exact Hgen].
+  destruct (fx_genexp fx); [apply flatten_yb|]. rewrite !flatten_app, flatten_yb. reflexivity.
+Qed.
+
+Lemma spec_items_flat spec : flatten (spec_items false spec) = spec_items true spec.
+Proof.
+  unfold spec_items, spec_items_gen. destruct spec as [o|]; [|reflexivity].
+  assert (Ho : flatten (IStr ":" :: yb false P_NONE o) = IStr ":" :: yb true P_NONE o).
+  { change (IStr ":" :: yb false P_NONE o) with ([IStr ":"] ++ yb false P_NONE o). rewrite flatten_app, flatten_yb. reflexivity. }
+  destruct o; try exact Ho.
+  change (IStr ":" :: ?l) with ([IStr ":"] ++ l). rewrite flatten_app, flatten_ijoin, map_flatten_yb. reflexivity.
 Qed.
 
 Ltac flat_simpl :=
-  repeat (rewrite ?flatten_app, ?flatten_ijoin, ?map_flatten_yb, ?flatten_yb, ?flatten_yob, ?flatten_cmp_zip,
-          ?flatten_lam_params, ?conv_param_flat, ?dict_item_flat; cbn [flatten flat_map expand app]).
+  repeat (rewrite ?flatten_app, ?flatten_wrap, ?flatten_ijoin, ?map_flatten_yb, ?flatten_yb, ?flatten_yob, ?flatten_cmp_zip,
+          ?flatten_lam_items, ?conv_param_flat, ?dict_item_flat, ?attr_parts_flat, ?call_args_flat, ?spec_items_flat;
+          cbn [flatten flat_map expand app]).
 
-Lemma is_nil_map {A B} (f : A -> B) l : is_nil (map f l) = is_nil l.
-Proof. destruct l; reflexivity. Qed.
+Lemma flatten_glue v : flatten (glue v) = glue v.
+Proof. unfold glue. destruct (_ && _); reflexivity. Qed.
 
-Theorem iterate_flat_is_expansion (g : gexpr) : iterate true g = flatten (iterate false g).
+Theorem iterate_flat_is_expansion (g : gexpr) : iterate fx true g = flatten (iterate fx false g).
 Proof.
-  destruct g; autorewrite with iter_eq; flat_simpl; try reflexivity.
+  destruct g; rewrite ?it_Str, ?it_Name, ?it_Attribute, ?it_BinOp, ?it_BoolOp, ?it_Call, ?it_Compare, ?it_Comprehension,
+    ?it_Dict, ?it_DictComp, ?it_Formatted, ?it_GeneratorExp, ?it_IfExp, ?it_JoinedStr, ?it_Keyword, ?it_VarPositional,
+    ?it_VarKeyword, ?it_Lambda, ?it_List, ?it_ListComp, ?it_NamedExpr, ?it_Set, ?it_SetComp, ?it_Slice, ?it_Subscript,
+    ?it_Tuple, ?it_UnaryOp, ?it_Yield, ?it_YieldFrom; flat_simpl; try reflexivity.
   - (* GComprehension *) destruct is_async, (is_nil conds); flat_simpl; reflexivity.
+  - (* GFormatted *) rewrite flatten_glue. destruct (conv =? -1)%Z; flat_simpl; reflexivity.
   - (* GLambda *) destruct (is_nil params); flat_simpl; reflexivity.
   - (* GSlice *) destruct st; flat_simpl; reflexivity.
-  - (* GTuple *) destruct implicit, es as [|? [|? ?]]; flat_simpl; reflexivity.
-  - (* GYield *) destruct v; [|reflexivity]. change (flat_map expand (IStr " " :: yb false g)) with (IStr " " :: flatten (yb false g)).
+  - (* GTuple *) destruct (tuple_par es implicit), es as [|? [|? ?]]; flat_simpl; reflexivity.
+  - (* GYield *) destruct v; [|reflexivity]. change (flat_map expand (IStr " " :: yb false P_TEST g)) with (IStr " " :: flatten (yb false P_TEST g)).
     rewrite flatten_yb. reflexivity.
 Qed.
 
@@ -166,12 +251,21 @@ Proof.
   apply Forall_app; split; [exact Hx|]. apply Forall_app; split; [exact Hs|exact IH].
 Qed.
 
+Lemma Forall_ijoin_inv (P : item -> Prop) sep l : Forall P (ijoin sep l) -> Forall (Forall P) l.
+Proof.
+  induction l as [|x l IH]; intros H; [constructor|]. destruct l as [|y l].
+  - constructor; [exact H|constructor].
+  - change (ijoin sep (x :: y :: l)) with (x ++ sep ++ ijoin sep (y :: l)) in H.
+    apply Forall_app in H. destruct H as [Hx H]. apply Forall_app in H. destruct H as [_ H].
+    constructor; [exact Hx|apply IH; exact H].
+Qed.
+
 Lemma Forall_cmp_zip (P : item -> Prop) ops l :
   (forall s, P (IStr s)) -> Forall (Forall P) l -> Forall (Forall P) (cmp_zip ops l).
 Proof.
   intros HS. revert l. induction ops as [|o ops IH]; intros l Hl.
   - simpl. apply Forall_forall. intros x Hx. apply in_map_iff in Hx. destruct Hx as [c [<- Hc]].
-    rewrite Forall_forall in Hl. repeat constructor; auto. 
+    rewrite Forall_forall in Hl. repeat constructor; auto.
   - destruct l as [|c l]; simpl.
     + constructor; [repeat constructor; auto|]. apply IH. constructor.
     + inversion Hl; subst. constructor; [repeat constructor; auto|]. apply IH; assumption.
@@ -188,8 +282,24 @@ Proof.
     try (destruct (is_nil ps); repeat constructor; auto).
 Qed.
 
-Lemma yb_pieces c : Forall is_piece (iterate true c) -> Forall is_piece (yb true c).
-Proof. rewrite yb_true. auto. Qed.
+Lemma Forall_lam_params2 (P : item -> Prop) ps a c :
+  (forall s, P (IStr s)) -> Forall (fun p => OptP (Forall P) (snd p)) ps -> Forall P (lam_params2 ps a c).
+Proof.
+  intros HS Hps. revert a c. induction Hps as [|[[n k] d] ps Hd _ IH]; intros a c; [destruct a; repeat constructor; auto|].
+  cbn [lam_params2]. simpl in Hd.
+  destruct k, a, c; cbn [is_po is_variadic negb andb];
+    repeat (apply Forall_app; split); try (repeat constructor; auto; fail); try apply IH;
+    try (destruct d; [|constructor]; try constructor; auto; fail);
+    try (destruct (is_nil ps); repeat constructor; auto).
+Qed.
+
+Lemma Forall_wrap (P : item -> Prop) p l : (forall s, P (IStr s)) -> Forall P l -> Forall P (wrap p l).
+Proof.
+  intros HS H. destruct p; [|exact H]. unfold wrap. constructor; [apply HS|]. apply Forall_app; split; [exact H|repeat constructor; apply HS].
+Qed.
+
+Lemma yb_pieces req c : Forall is_piece (iterate fx true c) -> Forall is_piece (yb true req c).
+Proof. intros H. rewrite yb_true. apply Forall_wrap; [intros; exact I|exact H]. Qed.
 
 Ltac pieces_tac :=
   repeat first
@@ -198,29 +308,51 @@ Ltac pieces_tac :=
     | apply Forall_nil
     | exact I
     | apply yb_pieces; assumption
+    | apply Forall_wrap; [intros; exact I|]
     | apply Forall_ijoin ].
 
-Lemma Forall_map_yb vs : Forall (fun g => Forall is_piece (iterate true g)) vs -> Forall (Forall is_piece) (map (yb true) vs).
+Lemma Forall_map_yb req vs : Forall (fun g => Forall is_piece (iterate fx true g)) vs -> Forall (Forall is_piece) (map (yb true req) vs).
 Proof.
   intros H. apply Forall_forall. intros x Hx. apply in_map_iff in Hx. destruct Hx as [c [<- Hc]].
   rewrite Forall_forall in H. apply yb_pieces. auto.
 Qed.
 
-Theorem flat_items_are_pieces (g : gexpr) : Forall is_piece (iterate true g).
+Theorem flat_items_are_pieces (g : gexpr) : Forall is_piece (iterate fx true g).
 Proof.
-  induction g using gexpr_ind'; autorewrite with iter_eq;
+  induction g using gexpr_ind'; rewrite ?it_Str, ?it_Name, ?it_Attribute, ?it_BinOp, ?it_BoolOp, ?it_Call, ?it_Compare, ?it_Comprehension,
+    ?it_Dict, ?it_DictComp, ?it_Formatted, ?it_GeneratorExp, ?it_IfExp, ?it_JoinedStr, ?it_Keyword, ?it_VarPositional,
+    ?it_VarKeyword, ?it_Lambda, ?it_List, ?it_ListComp, ?it_NamedExpr, ?it_Set, ?it_SetComp, ?it_Slice, ?it_Subscript,
+    ?it_Tuple, ?it_UnaryOp, ?it_Yield, ?it_YieldFrom;
     try (pieces_tac; try (apply Forall_map_yb; assumption); fail).
+  - (* GAttribute *) pieces_tac. unfold attr_parts, attr_parts_gen. destruct vs as [|v rest]; [constructor|].
+    inversion H; subst. destruct v; try (apply Forall_map_yb; assumption).
+    constructor; [destruct (fx_intattr fx && is_decimal s); repeat constructor|apply Forall_map_yb; assumption].
+  - (* GCall *) pieces_tac. unfold call_args, call_args_gen.
+    assert (Hgen : Forall is_piece ([IStr "("] ++ ijoin [IStr ", "] (map (yb true P_TEST) args) ++ [IStr ")"])).
+    { pieces_tac. apply Forall_map_yb; assumption. }
+    destruct args as [|a r]; [exact Hgen|]. destruct a; try exact Hgen. destruct r; [|exact Hgen].
+    inversion H; subst. destruct (fx_genexp fx); pieces_tac.
   - (* GCompare *) pieces_tac. apply Forall_cmp_zip; [intros; exact I|]. apply Forall_map_yb. assumption.
   - (* GComprehension *) destruct a, (is_nil conds); pieces_tac; apply Forall_map_yb; assumption.
   - (* GDict *) pieces_tac. apply Forall_forall. intros x Hx. apply in_map_iff in Hx. destruct Hx as [[k v] [<- Hc]].
     rewrite Forall_forall in H. destruct (H _ Hc) as [Hk Hv]. unfold dict_item. simpl fst in *. simpl snd in *.
     destruct k; simpl in Hk; pieces_tac.
-  - (* GLambda *) destruct (is_nil params); pieces_tac;
-      (apply Forall_lam_params; [intros; exact I|]; apply Forall_forall; intros x Hx; apply in_map_iff in Hx;
+  - (* GFormatted *) pieces_tac.
+    + unfold glue. destruct (_ && _); repeat constructor.
+    + destruct (conv =? -1)%Z; repeat constructor.
+    + unfold spec_items, spec_items_gen. destruct spec as [o|]; [|constructor]. simpl in H.
+      assert (Ho : Forall is_piece (IStr ":" :: yb true P_NONE o)) by (constructor; [exact I|apply yb_pieces; exact H]).
+      destruct o; try exact Ho.
+      constructor; [exact I|]. apply Forall_ijoin; [repeat constructor|].
+      (* the pieces of a joined string are those of its values *)
+      rewrite it_JoinedStr in H. apply Forall_app in H. destruct H as [_ H]. apply Forall_app in H. destruct H as [H _].
+      exact (Forall_ijoin_inv _ _ _ H).
+  - (* GLambda *) unfold lam_items. destruct (is_nil params), (fx_lambda fx); pieces_tac;
+      (first [apply Forall_lam_params2 | apply Forall_lam_params]; [intros; exact I|]; apply Forall_forall; intros x Hx; apply in_map_iff in Hx;
        destruct Hx as [[[n k] d] [<- Hc]]; rewrite Forall_forall in H; specialize (H _ Hc); unfold ParP in H; simpl in H;
        unfold conv_param; simpl; destruct d; simpl in *; [apply yb_pieces; assumption|exact I]).
   - (* GSlice *) destruct lo, up, st; simpl in *; pieces_tac.
-  - (* GTuple *) destruct i; pieces_tac; try (apply Forall_map_yb; assumption); destruct es as [|? [|? ?]]; pieces_tac.
+  - (* GTuple *) destruct (tuple_par es i); pieces_tac; try (apply Forall_map_yb; assumption); destruct es as [|? [|? ?]]; pieces_tac.
   - (* GYield *) destruct v; simpl in *; pieces_tac.
 Qed.
 
@@ -234,8 +366,13 @@ Proof. reflexivity. Qed.
 
 Lemma render_items_nil : render_items [] = "". Proof. reflexivity. Qed.
 
-Lemma render_yb c : render_items (yb true c) = render c.
-Proof. rewrite yb_true. reflexivity. Qed.
+Lemma render_wrap p l : render_items (wrap p l) = paren_if p (render_items l).
+Proof.
+  destruct p; [|reflexivity]. unfold wrap, paren_if. rewrite render_items_cons_str, render_items_app. reflexivity.
+Qed.
+
+Lemma render_yb req c : render_items (yb true req c) = paren_if (ypar req c) (render fx c).
+Proof. rewrite yb_true, render_wrap. reflexivity. Qed.
 
 Lemma render_ijoin sep l : render_items (ijoin [IStr sep] l) = sjoin sep (map render_items l).
 Proof.
@@ -245,6 +382,11 @@ Proof.
   unfold render_items at 2. simpl. rewrite sapp_nil_r. reflexivity.
 Qed.
 
-Lemma map_render_yb gs : map render_items (map (yb true) gs) = map render gs.
+(* the text of an operand in a slot that requires precedence req *)
+Definition rtext (req : nat) (c : gexpr) : string := paren_if (ypar req c) (render fx c).
+
+Lemma map_render_yb req gs : map render_items (map (yb true req) gs) = map (rtext req) gs.
 Proof. rewrite map_map. apply map_ext. intros; apply render_yb. Qed.
 Open Scope list_scope.
+
+End Iter.
